@@ -9,7 +9,7 @@
    A pair is a (server name, key id); maps are association lists; where a theorem needs the
    keys of an answer to be unique (Go maps always are) it says NoDup. *)
 From Coq Require Import Sorted.
-From Verif Require Import Lib.Bytes Keys.Model Keys.Spec Keys.MapFacts Keys.Proofs Gen.GenC12.
+From Verif Require Import Lib.Bytes Json.Ast Keys.Model Keys.Spec Keys.MapFacts Keys.Proofs Keys.ServerKeys Keys.ServerKeysProofs Gen.GenC12.
 Open Scope Z_scope.
 
 (* the constants and comparison operators of the model are those of the source (regenerated
@@ -25,7 +25,11 @@ Theorem C12_constants_match_source :
   gen_c12_expired_test_op = bs "!=" /\
   gen_c12_refetch_op = bs "<" /\
   gen_c12_first_pass_op = bs "==" /\
-  gen_c12_maxts_op = bs "<=".
+  gen_c12_maxts_op = bs "<=" /\
+  gen_c12_fetcher_checkkeys_now_ns = [fetcher_check_now; fetcher_check_now; fetcher_check_now] /\
+  gen_c12_checkkeys_algorithm = ed25519_name /\
+  gen_c12_checkkeys_key_length = Z.of_nat ed25519_key_length /\
+  gen_c12_local_key_valid_until_ms = local_key_valid_until.
 Proof. repeat split; reflexivity. Qed.
 
 (* ---------- the validity rule ---------- *)
@@ -169,6 +173,75 @@ Section C12.
   Proof. exact (thm_verify_jsons_complete_fetcher M kids_of vj). Qed.
 End C12.
 
+(* ---------- key responses ---------- *)
+Section C12Keys.
+  Context {M : Type} (kids_of : bytes -> M -> option (list bytes))
+          (vj : bytes -> bytes -> bytes -> M -> bool).
+
+  (* CheckKeys passes exactly when the response names the server asked for, its valid_until_ts
+     is after the instant handed in, it lists at least one ed25519 key, and every ed25519 key it
+     lists has 32 bytes and a signature by the named server under that key id that verifies
+     with that very key *)
+  Theorem check_keys_spec : forall server now (sk : server_keys M),
+    ck_all (check_keys M vj server now sk) = true <->
+    server = sk_server sk /\ now < ts_time (sk_valid_until sk) /\
+    (exists kv, In kv (sk_verify sk) /\ is_ed25519 (fst kv) = true) /\
+    (forall kv, In kv (sk_verify sk) -> is_ed25519 (fst kv) = true ->
+                length (snd kv) = 32%nat /\ vj (sk_server sk) (fst kv) (snd kv) (sk_raw sk) = true).
+  Proof. exact (check_keys_all M vj). Qed.
+
+  Theorem check_keys_returns_only_checked_keys : forall server now (sk : server_keys M) l kid key,
+    ck_keys (check_keys M vj server now sk) = Some l -> In (kid, key) l ->
+    ck_all (check_keys M vj server now sk) = true /\ In (kid, key) (sk_verify sk) /\
+    is_ed25519 kid = true /\ length key = 32%nat /\ vj (sk_server sk) kid key (sk_raw sk) = true.
+  Proof. exact (check_keys_keys M vj). Qed.
+
+  (* both fetchers hand CheckKeys the epoch (C12_constants_match_source), so through them
+     valid_until_ts in the future means 0 < valid_until_ts < 2^63; freshness is WasValidAt's job *)
+  Theorem fetchers_check_validity_against_the_epoch : forall vu,
+    0 <= vu < 2 ^ 64 -> (fetcher_check_now < ts_time vu <-> 0 < vu < 2 ^ 63).
+  Proof. exact future_at_epoch. Qed.
+
+  (* what a response contributes: current keys with the response's valid_until_ts, old keys with
+     their expired_ts, all under the response's own server name *)
+  Theorem server_keys_map_spec : forall (d : server_keys M) m k r,
+    In (k, r) (map_server_keys M d m) -> In (k, r) m \/ entry_from M d k r.
+  Proof. exact (map_server_keys_In M). Qed.
+
+  (* an answer of the perspective fetcher exists only if EVERY response of the notary carries a
+     signature of the notary, under a key id we hold a notary key for, that verifies with that
+     key, and passes CheckKeys for the server it names; and every key in the answer comes from
+     one of those responses *)
+  Theorem perspective_requires_notary_signature :
+    forall (lookup_keys : bytes -> kmap Z -> option (list (server_keys M))) pname pkeys asked res,
+    perspective_fetch M kids_of vj lookup_keys pname pkeys asked = Some res ->
+    exists docs, lookup_keys pname asked = Some docs /\
+      (forall d, In d docs ->
+         (exists kids kid key, kids_of pname (sk_raw d) = Some kids /\ In kid kids /\
+                               assoc_first kid pkeys = Some key /\ vj pname kid key (sk_raw d) = true)
+         /\ ck_all (check_keys M vj (sk_server d) fetcher_check_now d) = true) /\
+      (forall k r, In (k, r) res -> exists d, In d docs /\ entry_from M d k r).
+  Proof. exact (perspective_fetch_spec M kids_of vj). Qed.
+
+  (* every key the direct fetcher returns is the configured local key for a local server that was
+     asked for, or comes from a response for that key's server (fetched from the server itself or,
+     failing that, from it acting as notary for itself) that passed CheckKeys for that server *)
+  Theorem direct_fetcher_accepts_only_checked_responses :
+    forall (get_keys : bytes -> option (server_keys M))
+           (lookup_keys : bytes -> kmap Z -> option (list (server_keys M)))
+           is_local local_key now_ts asked k r,
+    In (k, r) (direct_fetch M vj get_keys lookup_keys is_local local_key now_ts asked) ->
+    (is_local (fst k) = true /\ mhas k asked = true /\
+     r = {| pk_key := local_key; pk_expired := 0; pk_valid_until := local_key_valid_until |})
+    \/ (exists d, is_local (fst k) = false /\
+                  ((get_keys (fst k) = Some d \/
+                    exists all, lookup_keys (fst k) [((fst k, []), now_ts)] = Some all /\ In d all /\
+                                sk_server d = fst k)
+                   /\ ck_all (check_keys M vj (fst k) fetcher_check_now d) = true)
+                  /\ entry_from M d k r).
+  Proof. exact (direct_fetch_spec M vj). Qed.
+End C12Keys.
+
 (* ---------- non-vacuity: a concrete ring ---------- *)
 Definition ex_kid : bytes := bs "ed25519:a".
 Definition ex_kids (_ : bytes) (_ : bytes) : option (list bytes) := Some [ex_kid; bs "rsa:1"].
@@ -214,6 +287,22 @@ Example strict_cap :
   strict_check ex_now (1700000000000 + 604800001) (1700000000000 + 10 * 604800000) = false.
 Proof. vm_compute. split; reflexivity. Qed.
 
+(* CheckKeys on a concrete response: passes; fails at the instant valid_until_ts; fails when the
+   listed key is not the signing key *)
+Definition ex_doc (key : bytes) : server_keys bytes :=
+  {| sk_server := bs "srv"; sk_verify := [(ex_kid, key)]; sk_valid_until := 1700000000000;
+     sk_old := []; sk_raw := bs "raw" |}.
+Definition ex_key32 : bytes := repeat 7%N 32.
+Definition ex_doc_vj (_ kid key _ : bytes) : bool := bytes_eqb key ex_key32 && bytes_eqb kid ex_kid.
+Example check_keys_concrete :
+  ck_all (check_keys bytes ex_doc_vj (bs "srv") 0 (ex_doc ex_key32)) = true /\
+  ck_all (check_keys bytes ex_doc_vj (bs "srv") (1700000000000 * 1000000) (ex_doc ex_key32)) = false /\
+  ck_all (check_keys bytes ex_doc_vj (bs "srv") (1700000000000 * 1000000 - 1) (ex_doc ex_key32)) = true /\
+  ck_all (check_keys bytes ex_doc_vj (bs "other") 0 (ex_doc ex_key32)) = false /\
+  ck_all (check_keys bytes ex_doc_vj (bs "srv") 0 (ex_doc (repeat 8%N 32))) = false /\
+  ck_all (check_keys bytes ex_doc_vj (bs "srv") 0 (ex_doc (repeat 7%N 31))) = false.
+Proof. vm_compute. repeat split; reflexivity. Qed.
+
 Print Assumptions C12_constants_match_source.
 Print Assumptions was_valid_at_spec_all.
 Print Assumptions was_valid_at_spec.
@@ -230,3 +319,9 @@ Print Assumptions fetched_keys_stored.
 Print Assumptions store_follows_every_fetch.
 Print Assumptions verify_jsons_complete_database.
 Print Assumptions verify_jsons_complete_fetcher.
+Print Assumptions check_keys_spec.
+Print Assumptions check_keys_returns_only_checked_keys.
+Print Assumptions fetchers_check_validity_against_the_epoch.
+Print Assumptions server_keys_map_spec.
+Print Assumptions perspective_requires_notary_signature.
+Print Assumptions direct_fetcher_accepts_only_checked_responses.
